@@ -103,7 +103,10 @@ func main() {
 			commitAt: map[uint32]map[int]byte{}, hadAsync: pf.steps > 0}
 		run.line(fmt.Sprintf("init %d", nv))
 		for _, nd := range cl.nodes {
-			nd.srv.Start()
+			if err := nd.start(); err != nil {
+				fmt.Fprintln(os.Stderr, "start:", err)
+				os.Exit(3)
+			}
 			run.line(fmt.Sprintf("start %d", nd.idx))
 			run.settle(nd)
 		}
